@@ -69,6 +69,12 @@ static void run(const char* name, int kind, int L, int U, int n) {
       SM Sub4 = S4.submatrix_on_diagonal(a, b);
       Vector dw = Sub4.diag_vector(kw); dw = -7.0;
       Matrix M4; M4 = S4; os << "UW" << kw; dumpM(os, "", M4);
+      // whole-matrix assignment from an expression to the sub-matrix view (row ranges of a matrix that is not packed)
+      SM S5(n); S5 = 0.0; S5 = S;
+      SM Sub5 = S5.submatrix_on_diagonal(a, b);
+      Matrix X5(m, m); for (int i = 0; i < m; ++i) for (int j = 0; j < m; ++j) X5(i, j) = 2000 + 10 * i + j;
+      Sub5 = X5 * 1.0;
+      Matrix M5; M5 = S5; dumpM(os, "UA", M5);
     }
     { Matrix E; E = S + 2.0 * S; dumpM(os, "E", E); }
     { Matrix F; F = S.T() * 1.0 + S; dumpM(os, "F", F); }
